@@ -52,9 +52,9 @@ Example C09_example :
   let p := {| p_thr := 100; p_lo := 1 # 2; p_hi := 2; p_unit_bl := ["b"%string]; p_postal_bl := []; p_zero_policy := false; p_margin := false |} in
   let base := [ {| b_id := "a"; b_postal := "S"; b_w := 100 |}; {| b_id := "b"; b_postal := "S"; b_w := 50 |};
                 {| b_id := "c"; b_postal := "S"; b_w := 10 |}; {| b_id := "d"; b_postal := "S"; b_w := 0 |} ]%string in
-  let feed := [ {| f_id := "a"; f_postal := "S"; f_rw := 120; f_pev := 100 |}; {| f_id := "b"; f_postal := "S"; f_rw := 40; f_pev := 100 |};
-                {| f_id := "c"; f_postal := "S"; f_rw := 5; f_pev := 100 |}; {| f_id := "d"; f_postal := "S"; f_rw := 3; f_pev := 20 |};
-                {| f_id := "z"; f_postal := "S"; f_rw := 7; f_pev := 100 |} ]%string in
+  let feed := [ {| f_id := "a"; f_postal := "S"; f_rw := 120; f_pev := 100; f_nan := false |}; {| f_id := "b"; f_postal := "S"; f_rw := 40; f_pev := 100; f_nan := false |};
+                {| f_id := "c"; f_postal := "S"; f_rw := 5; f_pev := 100; f_nan := false |}; {| f_id := "d"; f_postal := "S"; f_rw := 3; f_pev := 20; f_nan := false |};
+                {| f_id := "z"; f_postal := "S"; f_rw := 7; f_pev := 100; f_nan := false |} ]%string in
   unit_table p (join p [] [] base feed) feed =
   [("a", Expected, true); ("z", Unexpected, false); ("b", Blocklisted, false); ("d", ZeroBaseline, false); ("c", StrangeTF, false)]%string.
 Proof. vm_compute. reflexivity. Qed.
